@@ -17,6 +17,8 @@ def calc_rep(r1, r2):
     return c
 
 
+SHIFT_REPS = [("int32_t", "int32_t"), ("int64_t", "int64_t"), ("int64_t", "uint32_t"), ("uint64_t", "uint32_t"), ("int32_t", "uint8_t"),
+              ("int32_t", "int64_t"), ("uint32_t", "uint32_t")]
 CMPS = [("eq", "=="), ("ne", "!="), ("lt", "<"), ("le", "<="), ("gt", ">"), ("ge", ">=")]
 
 
@@ -52,6 +54,7 @@ class C09(F.Check):
         ks = []
         self.inst = []
         self.pairs2 = []
+        self.shifts = []
         n = 0
         for i, u1 in enumerate(us):
             for j, u2 in enumerate(us):
@@ -107,6 +110,32 @@ class C09(F.Check):
                             ks.append(k)
                             names[nm] = k.name
                         self.pairs2.append((u1, u2, r1, r, names, tag, key))
+                # point +/- quantity (the quantity in another unit and another rep, incl. unsigned reps narrower than the common rep)
+                if (n % 5 == 1) or self.tier == "thorough" and n % 2 == 1:
+                    for rp, rq in SHIFT_REPS:
+                        tag = "%s_%s_%s_%s" % (u1.name, u2.name, rp.replace("_t", ""), rq.replace("_t", ""))
+                        key = {"point_unit": u1.name, "quantity_unit": u2.name, "point_rep": rp, "quantity_rep": rq}
+                        a = "make_quantity_point<%s>(x)" % u1.cxx
+                        b = "make_quantity<%s>(y)" % u2.cxx
+                        args = [(rp, "x"), (rq, "y")]
+                        from .C05 import common_type
+                        cr = F.promoted(common_type(rp, rq))
+                        names = {}
+                        for nm, expr in (("p_plus_q", "%s + %s" % (a, b)), ("q_plus_p", "%s + %s" % (b, a)), ("p_minus_q", "%s - %s" % (a, b)),
+                                         ("p_pluseq_q", None), ("p_minuseq_q", None)):
+                            if expr is None:
+                                if u1 is not u2 and False:
+                                    continue
+                                # compound assignment: only with a quantity the point's own Diff type accepts implicitly; probed, dropped if refused
+                                body = "auto p = %s; p %s= %s; return p.in(QuantityPointMaker<%s>{});" % (a, "+" if "plus" in nm else "-", b, u1.cxx)
+                                ret = rp
+                            else:
+                                body = "auto r = %s; return r.in(QuantityPointMaker<typename decltype(r)::Unit>{});" % expr
+                                ret = cr
+                            k = F.Kernel("c09_%s_%s" % (nm, tag), ret, args, body, key=key, family="shift_" + nm)
+                            ks.append(k)
+                            names[nm] = k.name
+                        self.shifts.append((u1, u2, rp, rq, cr, names, tag, key))
         return ks
 
     def obligations(self, K):
@@ -213,6 +242,45 @@ class C09(F.Check):
                     return reach, T.and_(T.not_(e.ub), T.eq(F.ival(pr, e.ret), T.imod(d, T.const_int(1 << pw))))
                 obs.append(F.Ob("diff:%s" % tag, xs, fn, key=key, kernels=[names["diff"]],
                                 note="point - point equals the exact displacement in the common unit"))
+        # point +/- quantity: the point shifted by exactly that displacement, in the common unit of the two scales (the origin is the point's)
+        for u1, u2, rp, rq, cr, names, tag, key in self.shifts:
+            G = P.gcdf(u1.scale, u2.scale)
+            k1, k2 = int(u1.scale / G), int(u2.scale / G)
+            key = dict(key, k1=k1, k2=k2, common_rep=cr)
+            xs = [("x", F.ct_sort(rp)), ("y", F.ct_sort(rq))]
+            lo, hi = F.ct_range(cr)
+            signed = F.ct_signed(cr)
+            cw = F.CTYPES[cr][1]
+            for nm in ("p_plus_q", "q_plus_p", "p_minus_q"):
+                if K[names[nm]].kernel.dropped:
+                    self.extra_cov["dropped_shift"] = self.extra_cov.get("dropped_shift", 0) + 1
+                    continue
+
+                def fn(K, x, y, nm=nm, names=names, rp=rp, rq=rq, k1=k1, k2=k2, lo=lo, hi=hi, signed=signed, cr=cr, cw=cw):
+                    xv, yv = F.ival(rp, x), F.ival(rq, y)
+                    a_, b_ = T.imul(xv, T.const_int(k1)), T.imul(yv, T.const_int(k2))
+                    reach = T.and_(T.in_range(a_, lo, hi), T.in_range(b_, lo, hi))
+                    d = T.isub(a_, b_) if nm == "p_minus_q" else T.iadd(a_, b_)
+                    e = K[names[nm]](x, y)
+                    if signed:
+                        fits = T.in_range(d, lo, hi)
+                        return reach, T.and_(T.eq(e.ub, T.not_(fits)), T.or_(e.ub, T.eq(F.ival(cr, e.ret), d)))
+                    return reach, T.and_(T.not_(e.ub), T.eq(F.ival(cr, e.ret), T.imod(d, T.const_int(1 << cw))))
+                obs.append(F.Ob("shift_%s:%s" % (nm, tag), xs, fn, key=key, kernels=[names[nm]],
+                                note="operands scaled to the common unit fit the common rep => point +/- quantity is exactly x*k1 +/- y*k2 there "
+                                     "(signed: traps iff that does not fit; unsigned: modulo 2^w)"))
+            # compound forms, where they compile: same value as the plain operator converted back to the point's own unit and rep
+            for nm, plain in (("p_pluseq_q", "p_plus_q"), ("p_minuseq_q", "p_minus_q")):
+                if K[names[nm]].kernel.dropped or K[names[plain]].kernel.dropped:
+                    continue
+                if k1 != 1 or rp != cr:
+                    continue          # the compound form stays in the point's unit and rep: compared only when that IS the common unit and rep
+
+                def fnc(K, x, y, nm=nm, plain=plain, names=names):
+                    a_, b_ = K[names[nm]](x, y), K[names[plain]](x, y)
+                    return T.TRUE, T.and_(T.eq(a_.ub, b_.ub), T.or_(a_.ub, T.eq(a_.ret, b_.ret)))
+                obs.append(F.Ob("shift_%s:%s" % (nm, tag), xs, fnc, key=key, kernels=[names[nm], names[plain]],
+                                note="p += q / p -= q equal p + q / p - q when the point's unit and rep are the common ones"))
         return obs
 
 
